@@ -277,12 +277,8 @@ func c10Run(t *testing.T, unit string, race bool) {
 			r.Bound("max_preemptions", j.p)
 			r.Bound("race_build", race)
 			var res string
-			prefix := ""
-			if race {
-				prefix = "C10|race-build|"
-			}
 			st := sched.Explore(r, sched.Config{Name: job, MaxP: j.p, MaxE: 0, MaxSteps: 3000, Body: c10Body(j.sc, j.tracing, &res),
-				Outcome: func(*sched.Exec) string { return res }, KeyPrefix: prefix})
+				Outcome: func(*sched.Exec) string { return res }})
 			if race {
 				r.Count("race_build_executions", st.Execs)
 			}
